@@ -354,16 +354,21 @@ def run(ctx, repo, tier):
     def is_self_attr(n, attr):
         return isinstance(n, ast.Attribute) and isinstance(n.value, ast.Name) and n.value.id == "self" and n.attr == attr
     checks, convs, hashes, assigns = [], [], [], []
+    from ..astutil import Canon as _CanonT
+    _cn_test = _CanonT(_CanonT.single_defs(init.node.body))
+    test_of = {}          # the predicate of a check with its single-definition locals spelled out (has_negative = np.any(x < 0) ...)
     for node in cfg.nodes:
         s = node.stmt
         if s is None:
             continue
-        if isinstance(s, ast.Assert) and any(is_self_attr(x, "trans_grid") for x in ast.walk(s.test)) and \
-                any(isinstance(x, ast.Compare) and isinstance(x.ops[0], (ast.GtE, ast.Gt, ast.Lt, ast.LtE)) for x in ast.walk(s.test)):
+        if isinstance(s, (ast.Assert, ast.If)):
+            test_of[id(s)] = _cn_test.expand(s.test)
+        if isinstance(s, ast.Assert) and any(is_self_attr(x, "trans_grid") for x in ast.walk(test_of[id(s)])) and \
+                any(isinstance(x, ast.Compare) and isinstance(x.ops[0], (ast.GtE, ast.Gt, ast.Lt, ast.LtE)) for x in ast.walk(test_of[id(s)])):
             checks.append(node)
-        if isinstance(s, ast.If) and any(is_self_attr(x, "trans_grid") for x in ast.walk(s.test)) and \
+        if isinstance(s, ast.If) and any(is_self_attr(x, "trans_grid") for x in ast.walk(test_of[id(s)])) and \
                 any(isinstance(b, ast.Raise) for b in s.body) and \
-                any(isinstance(x, ast.Compare) and isinstance(x.ops[0], (ast.Lt, ast.LtE)) for x in ast.walk(s.test)):
+                any(isinstance(x, ast.Compare) and isinstance(x.ops[0], (ast.Lt, ast.LtE)) for x in ast.walk(test_of[id(s)])):
             checks.append(node)
         if isinstance(s, (ast.Assign, ast.AugAssign)):
             tgts = s.targets if isinstance(s, ast.Assign) else [s.target]
@@ -391,6 +396,10 @@ def run(ctx, repo, tier):
                 return [CMP[type(e.ops[0])](v, r.value) for v in vals]
             if is_self_attr(r, "trans_grid") and isinstance(l, ast.Constant) and isinstance(l.value, (int, float)):
                 return [CMP[type(e.ops[0])](l.value, v) for v in vals]
+        if isinstance(e, ast.Call) and src(e.func).split(".")[-1] in ("isnan", "isinf") and e.args and is_self_attr(e.args[0], "trans_grid"):
+            return [False for _ in vals]          # the sign profiles are finite numbers
+        if isinstance(e, ast.Call) and src(e.func).split(".")[-1] == "isfinite" and e.args and is_self_attr(e.args[0], "trans_grid"):
+            return [True for _ in vals]
         return None
 
     def truth(e, vals):
@@ -429,7 +438,7 @@ def run(ctx, repo, tier):
         s_ = node.stmt
         verdicts = {}
         for pname, vals in PROFILES.items():
-            t = truth(s_.test, vals)
+            t = truth(test_of.get(id(s_), s_.test), vals)
             verdicts[pname] = None if t is None else ((not t) if isinstance(s_, ast.Assert) else t)
         ctx.instance("DOM")
         if any(v is None for v in verdicts.values()):
